@@ -424,6 +424,11 @@ class RefInst:
             for m in item["members"]:
                 if m["raises"] is None:
                     m["optional"] = True
+                    if not self.rtc and any(r.get("raise") or r.get("sends")
+                                            for r in self.ref.beh.get(self.rp.full(m["c"]), [])):
+                        # rtc=False: a sibling that sends (depth-first) or raises as well makes the
+                        # outcome depend on the unspecified order inside the group
+                        self.ref.ambiguous = True
             raise RefRaise(pending)
         return vals
 
